@@ -27,6 +27,16 @@ argcounts: dict[str, int] = {'type': 1}
 
 unsafe_builtins = {
     'breakpoint',  # Remote code execution and interactive shell access
+    'compile',
+    'eval',
+    'exec',
+    'open',  # File system access
+    'input',  # Interactive input and process control
+    'help',
+    'exit',
+    'quit',
+    'print',  # Output side effects
+    'delattr',
     'getattr',  # Attribute-based sandbox escapes and manipulation
     'hasattr',
     'setattr',
